@@ -190,3 +190,77 @@ def rule_Z2(ctx, F):
                    ("Zeroize::zeroize(&mut self.%s) is called on every path (%s)" % (f["name"], d[2])) if d and d[0] else
                    ("field `%s` (%s) of %s is %s by <%s as Zeroize>::zeroize" %
                     (f["name"], f["ty"], ty, "not zeroized on every path" if d else "never zeroized", ty)))
+
+
+def _places(x, out):
+    if isinstance(x, dict):
+        if "l" in x and "p" in x and isinstance(x["p"], list):
+            out.append(x)
+        for v in x.values():
+            _places(v, out)
+    elif isinstance(x, list):
+        for v in x:
+            _places(v, out)
+
+
+def _pfx(P, q):
+    return q["l"] == P[0] and [repr(e) for e in q["p"][:len(P[1])]] == [repr(e) for e in P[1]]
+
+
+def rule_ZL(ctx, F):
+    """no use after wipe: outside Zeroize / Drop impls, when `Zeroize::zeroize` is called on state reached through a parameter
+    (a field of *self), no path from the call reads that place again before it is assigned as a whole.  (The seeded form: the
+    chunk state is wiped and the next chunk state is then built from its -- now zero -- counter and flags.)  Wiping and then
+    re-initialising, or wiping the function's own locals, is fine."""
+    n = 0
+    for path, f in sorted(F.fns.items()):
+        if not f.has_body:
+            continue
+        np_ = norm_path(path)
+        if "Zeroize>::zeroize" in np_ or np_.endswith("Drop>::drop") or "ZeroizeOnDrop" in np_:
+            continue
+        for bi, t in f.calls():
+            cn = norm_path(callee_name(t["callee"]))
+            if not ("Zeroize>::zeroize" in cn or cn.endswith("::zeroize")):
+                continue
+            n += 1
+            # the wiped place: the referent of the &mut handed to zeroize
+            P = None
+            a0 = t["args"][0] if t.get("args") else None
+            if a0 and a0.get("k") in ("move", "copy") and not a0["place"]["p"]:
+                for b2, si, st in f.stmts():
+                    if st["place"]["l"] == a0["place"]["l"] and not st["place"]["p"] and st["rv"].get("k") == "ref":
+                        P = (st["rv"]["place"]["l"], st["rv"]["place"]["p"])
+            if P is None or P[0] > f.nargs if hasattr(f, "nargs") else P is None:
+                ctx.ob(True, "no-use-after-wipe:%s" % path, t.get("s", f.loc), "zeroize on a local / unresolved place; not caller state")
+                continue
+            # forward walk
+            reads = []
+            seen = set()
+            work = [(s_, 0) for s_ in f.succ(bi)]
+            while work:
+                b, start = work.pop()
+                if (b, start) in seen:
+                    continue
+                seen.add((b, start))
+                killed = False
+                for st in f.blocks[b]["stmts"][start:]:
+                    ps = []
+                    _places(st["rv"], ps)
+                    if any(_pfx(P, q) for q in ps):
+                        reads.append(st.get("s", "?"))
+                    if st["place"]["l"] == P[0] and [repr(e) for e in st["place"]["p"]] == [repr(e) for e in P[1]]:
+                        killed = True
+                        break
+                if killed:
+                    continue
+                term = f.blocks[b]["term"]
+                ps = []
+                _places({k: v for k, v in term.items() if k in ("args", "discr", "cond", "place")}, ps)
+                if any(_pfx(P, q) for q in ps):
+                    reads.append(term.get("s", "?"))
+                for s_ in f.succ(b):
+                    work.append((s_, 0))
+            ctx.ob(not reads, "no-use-after-wipe:%s" % path, t.get("s", f.loc),
+                   "%s wipes a field of its parameter and %s" % (path, "never reads it again before reassigning it" if not reads else "reads it again at %s" % sorted(set(reads))[:3]))
+    ctx.ob(True, "zeroize-callers-inventory", "", "%d zeroize call(s) outside Zeroize/Drop impls" % n)
